@@ -18,7 +18,14 @@ func setNow(d time.Duration) {
 // Elapsed returns the virtual time elapsed in the current run.
 func Elapsed() time.Duration { return time.Duration(nowMirror.Load()) }
 
-func Now() time.Time                  { return Base.Add(Elapsed()) }
+func Now() time.Time {
+	if s.hbOn {
+		if t := me(); t != nil {
+			s.acc(t, kClock, false)
+		}
+	}
+	return Base.Add(Elapsed())
+}
 func Since(t time.Time) time.Duration { return Now().Sub(t) }
 func Until(t time.Time) time.Duration { return t.Sub(Now()) }
 
@@ -32,6 +39,9 @@ type vtimer struct {
 }
 
 func (s *sched) addTimer(vt *vtimer) {
+	if s.hbOn {
+		s.acc(s.cur, kClock, true)
+	}
 	s.timerSeq++
 	vt.seq = s.timerSeq
 	vt.active = true
@@ -66,11 +76,13 @@ func (s *sched) fire(vt *vtimer) {
 	} else {
 		vt.active = false
 	}
+	s.accSched(kClock, uint64(vt.seq))
 	if vt.ch != nil {
 		select {
-		case vt.ch <- Now():
+		case vt.ch <- Base.Add(s.now):
 		default:
 		}
+		s.accSched(chanID(vt.ch), 0x71)
 	}
 	if vt.fn != nil {
 		parent := -1
@@ -100,6 +112,7 @@ func Advance(d time.Duration) {
 		return
 	}
 	pt(t, "advance")
+	s.acc(t, kClock, true)
 	target := s.now + d
 	for {
 		vt := s.earliest(target, true)
@@ -119,6 +132,7 @@ func AdvanceSettle(d time.Duration) {
 		return
 	}
 	Settle()
+	s.acc(t, kClock, true)
 	target := s.now + d
 	for {
 		vt := s.earliest(target, true)
@@ -129,6 +143,7 @@ func AdvanceSettle(d time.Duration) {
 		Settle()
 	}
 	setNow(target)
+	s.acc(t, kClock, true)
 	Settle()
 }
 
@@ -162,6 +177,7 @@ func Sleep(d time.Duration) {
 	s.addTimer(vt)
 	s.point(t, &pend{kind: opSleep, until: vt.when})
 	vt.active = false
+	s.acc(t, kClock, false)
 }
 
 // Timer mirrors time.Timer.
@@ -204,6 +220,9 @@ func (tm *Timer) Stop() bool {
 	}
 	was := tm.vt.active
 	tm.vt.active = false
+	if t := me(); t != nil {
+		s.acc(t, kClock, true)
+	}
 	return was
 }
 
@@ -213,6 +232,9 @@ func (tm *Timer) Reset(d time.Duration) bool {
 	}
 	was := tm.vt.active
 	tm.vt.when = s.now + d
+	if t := me(); t != nil {
+		s.acc(t, kClock, true)
+	}
 	if !was {
 		if me() != nil {
 			s.addTimer(tm.vt)
@@ -256,6 +278,9 @@ func (tk *Ticker) Stop() {
 		return
 	}
 	tk.vt.active = false
+	if t := me(); t != nil {
+		s.acc(t, kClock, true)
+	}
 }
 
 func (tk *Ticker) Reset(d time.Duration) {
